@@ -205,8 +205,101 @@ let norm_case (s : X.t) : string =
     X.to_string (d_program c) ^ "\t" ^ X.to_string (d_program f)
   | _ -> "(bad-case)"
 
-(*ESCAPE-PRETTY-HOOK*)
-let other_case (_ : string) (_ : X.t) : string = "(unsupported-mode)"
+(* ---- Escape.v / Pretty.v ---- *)
+let cps_of (items : X.t list) : z list = List.map (fun x -> z_of_int (int_of_string (X.atom x))) items
+let d_cps (l : z list) : string = String.concat " " (List.map (fun c -> string_of_int (int_of_z c)) l)
+let q = z_of_int 34
+
+let esc_case (s : X.t) : string =
+  match s with
+  | X.List (X.Atom "single" :: items) ->
+    let text = cps_of items in
+    let e = escape_single text in
+    let back = match scan_single (e @ [q]), unescape e with
+      | ScanText (t, []), Some t' when t = t' -> "ok " ^ d_cps t
+      | ScanHole _, _ -> "hole"
+      | _ -> "err" in
+    Printf.sprintf "(single (esc %s) (back %s))" (d_cps e) back
+  | X.List (X.Atom "multi" :: margin :: items) ->
+    let text = cps_of items in
+    let raw = render_multiline text (nat_of_int (int_of_string (X.atom margin))) in
+    let back = match scan_multiline_raw (raw @ [q; q; q]) with
+      | Some (r, []) when r = raw ->
+        (match process_multiline_term raw, process_multiline raw with
+         | MText t, Some t' when t = t' -> "ok " ^ d_cps t
+         | MHole, _ -> "hole"
+         | _ -> "err")
+      | _ -> "err" in
+    Printf.sprintf "(multi (raw %s) (back %s))" (d_cps raw) back
+  | _ -> "(bad-case)"
+
+let rawmulti_case (s : X.t) : string =
+  match s with
+  | X.List (X.Atom kind :: items) ->
+    let raw = cps_of items in
+    (match scan_multiline_raw (raw @ [q; q; q]) with
+     | None -> "(err)"
+     | Some (r, []) ->
+       if kind = "pat" then (match process_multiline r with Some t -> "(ok " ^ d_cps t ^ ")" | None -> "(err)")
+       else (match process_multiline_term r with MText t -> "(ok " ^ d_cps t ^ ")" | MHole -> "(other)" | MErr -> "(err)")
+     | Some _ -> "(other)")
+  | _ -> "(bad-case)"
+
+(* index of the closing quote of `single_line_string` (parser.rs:448): a backslash skips the next character *)
+let rec closing_quote (l : z list) (i : int) : int option =
+  match l with
+  | [] -> None
+  | c :: r when int_of_z c = 92 -> (match r with [] -> None | _ :: r' -> closing_quote r' (i + 2))
+  | c :: _ when int_of_z c = 34 -> Some i
+  | _ :: r -> closing_quote r (i + 1)
+
+let rawsingle_case (s : X.t) : string =
+  match s with
+  | X.List (X.Atom kind :: items) ->
+    let raw = cps_of items in
+    if kind = "pat" then
+      (match closing_quote (raw @ [q]) 0 with
+       | None -> "(err)"
+       | Some i when i = List.length raw -> (match unescape raw with Some t -> "(ok " ^ d_cps t ^ ")" | None -> "(err)")
+       | Some _ -> "(other)")
+    else
+      (match scan_single (raw @ [q]) with
+       | ScanText (t, []) -> "(ok " ^ d_cps t ^ ")"
+       | ScanText _ | ScanHole _ -> "(other)"
+       | ScanErr -> "(err)")
+  | _ -> "(bad-case)"
+
+let rec doc_of (s : X.t) : doc =
+  match s with
+  | X.Atom "nil" -> DNil | X.Atom "line" -> DLine | X.Atom "softline" -> DSoftLine
+  | X.Atom "hardline" -> DHardLine | X.Atom "breakparent" -> DBreakParent
+  | X.List (X.Atom "text" :: items) -> DText (cps_of items)
+  | X.List (X.Atom "concat" :: ds) -> DConcat (List.map doc_of ds)
+  | X.List [X.Atom "nest"; n; d] -> DNest (nat_of_int (int_of_string (X.atom n)), doc_of d)
+  | X.List [X.Atom "group"; d] -> group (doc_of d)
+  | X.List [X.Atom "rawgroup"; b; d] -> DGroup (doc_of d, X.atom b = "true")
+  | X.List [X.Atom "ifbreak"; b; f] -> DIfBreak (doc_of b, doc_of f)
+  | X.List [X.Atom "suffix"; d] -> DLineSuffix (doc_of d)
+  | _ -> failwith ("doc " ^ X.to_string s)
+
+let pretty_case (s : X.t) : string =
+  match s with
+  | X.List [X.Atom "pretty"; X.List (X.Atom "w" :: ws); d] ->
+    let doc = doc_of d in
+    let outs = List.map (fun w ->
+        match print doc (nat_of_int (int_of_string (X.atom w))) with
+        | Some l -> "(" ^ d_cps l ^ ")"
+        | None -> "(out-of-fuel)") ws in
+    "(printed " ^ String.concat " " outs ^ ")"
+  | _ -> "(bad-case)"
+
+let other_case (mode : string) (s : X.t) : string =
+  match mode with
+  | "esc" -> esc_case s
+  | "rawmulti" -> rawmulti_case s
+  | "rawsingle" -> rawsingle_case s
+  | "pretty" -> pretty_case s
+  | _ -> "(unsupported-mode)"
 
 let () =
   let mode = if Array.length Sys.argv > 1 then Sys.argv.(1) else "norm" in
